@@ -1048,6 +1048,9 @@ class OptionStore:
         new_value = opt.validate_value(new_value)
         if key in self.options:
             old_value = opt.value
+            # Giving a yielding option a value of its own is a change, even
+            # if that value equals the one it already stores.
+            changed |= opt.yielding
             opt.set_value(new_value)
             opt.yielding = False
         else:
